@@ -321,11 +321,11 @@ struct Runner
   }
 
   // ---- consumer ----------------------------------------------------------------------------------
-  void prepare_read(int k1, int k2, int k3, int k4)
+  // one `prepare_read()` of the real queue with all its checks; appends the observation to `out`.
+  // Returns true iff the call switched to the next node and found nothing there; in that case, when `follow` is set,
+  // the trailing "null" is NOT appended (the caller looks again, as BackendWorker::_read_unbounded_frontend_queue does).
+  bool read_core(std::string& out, bool follow)
   {
-    flush_oracles();
-    ++line_no;
-    world().begin_call(1, {k1, k2, k3, k4});
     size_t const before = cnode;
     auto const rr = q->prepare_read();
     bool switched = false;
@@ -346,11 +346,10 @@ struct Runner
       cnode = track_node(q->_consumer);
     }
     note_orders();
-    std::cout << "pr " << k1 << " " << k2 << " " << k3 << " " << k4 << " => ";
     if (switched)
     {
       ++g_stats["switches"];
-      std::cout << "switch " << rr.previous_capacity << " " << rr.new_capacity << " ";
+      out += "switch " + std::to_string(rr.previous_capacity) + " " + std::to_string(rr.new_capacity) + " ";
       if (!rr.allocation) { oracle("switch-not-reported-as-allocation"); }
       // anything still unread in the old node is lost
       if (!fifo.empty() && fifo.front().node == before)
@@ -362,20 +361,21 @@ struct Runner
     std::byte* p = rr.read_pos;
     if (!p)
     {
-      std::cout << "null\n";
       reading = false;
-      return;
+      if (switched && follow) { return true; }
+      out += "null";
+      return switched;
     }
     NodeShadow& nd = nodes[cnode];
     uint64_t const off = static_cast<uint64_t>(p - nd.base);
-    std::cout << "read " << cnode << " " << off << "\n";
+    out += "read " + std::to_string(cnode) + " " + std::to_string(off);
     reading = true;
     if (fifo.empty())
     {
       oracle("read-offered-but-nothing-finished off=" + std::to_string(off));
       reading = false;
       read_n = 0;
-      return;
+      return false;
     }
     Rec const want = fifo.front();
     uint64_t n = 0;
@@ -404,6 +404,41 @@ struct Runner
     if (torn) { oracle("payload-mismatch node=" + std::to_string(cnode) + " off=" + std::to_string(off)); }
     read_n = n;
     ++g_stats["reads"];
+    return false;
+  }
+
+  void prepare_read(int k1, int k2, int k3, int k4)
+  {
+    flush_oracles();
+    ++line_no;
+    world().begin_call(1, {k1, k2, k3, k4});
+    std::string out;
+    read_core(out, false);
+    std::cout << "pr " << k1 << " " << k2 << " " << k3 << " " << k4 << " => " << out << "\n";
+  }
+
+  // the backend's read of one unbounded frontend queue (BackendWorker::_read_unbounded_frontend_queue): prepare_read();
+  // when it moved to the next buffer and found it empty, look again (`follow`, the repair of finding F25; follow = 0 is
+  // the rule as found). Newest loads. Oracle (C05): with the repair the answer must not be "nothing" while a
+  // committed record is unread.
+  void read_pass(bool follow)
+  {
+    flush_oracles();
+    ++line_no;
+    std::string out;
+    for (size_t guard = 0; guard < nodes.size() + 64; ++guard)
+    {
+      world().begin_call(1);
+      if (!read_core(out, follow) || !follow) { break; }
+    }
+    ++g_stats["read_passes"];
+    std::cout << "rp " << (follow ? 1 : 0) << " => " << out << "\n";
+    if (follow && !reading && producer_committed && !fifo.empty())
+    {
+      oracle("read-pass-answers-nothing-with-committed-unread-record node=" + std::to_string(fifo.front().node) +
+             " consumer-node=" + std::to_string(cnode));
+    }
+    if (!reading && !fifo.empty() && producer_committed) { ++g_stats["read_pass_null_with_pending"]; }
   }
 
   void finish_read(uint64_t n)
@@ -498,13 +533,37 @@ struct Runner
       return;
     }
     if (rng.chance(8)) { empty(stale_choice(rng), stale_choice(rng)); return; }
+    if (rng.chance(12)) { read_pass(true); return; }
     prepare_read(stale_choice(rng), stale_choice(rng), stale_choice(rng), stale_choice(rng));
+  }
+
+  // F25 window: a shrink leaves an empty node behind, the next record does not fit it and goes to a third node;
+  // the read pass must follow the chain past the empty node
+  void f25_block(Rng& rng)
+  {
+    if (have_grant || reading || !producer_committed) { return; }
+    uint64_t const cap = nodes[pnode].cap;
+    if (cap < 16) { return; }
+    shrink(cap / 2);
+    prepare_write(rng.chance(50) ? cap : cap / 2 + 1 + rng.below(cap / 2), 0);
+    if (have_grant)
+    {
+      finish_write(grant_n);
+      commit_write();
+    }
+    read_pass(true);
+    if (reading)
+    {
+      finish_read(read_n);
+      commit_read();
+    }
   }
 
   void generate(Rng& rng, unsigned nops)
   {
     unsigned phase_len = 0;
     unsigned p_bias = 50;
+    if (rng.chance(50)) { f25_block(rng); }
     for (unsigned i = 0; i < nops; ++i)
     {
       if (phase_len == 0)
@@ -514,6 +573,7 @@ struct Runner
         p_bias = r == 0 ? 80 : r == 1 ? 20 : 50;
       }
       --phase_len;
+      if (rng.chance(2)) { f25_block(rng); continue; }
       if (rng.chance(p_bias)) { producer_step(rng); }
       else { consumer_step(rng); }
     }
@@ -563,6 +623,7 @@ struct Runner
     else if (w[0] == "fr") { if (reading) { finish_read(read_n); } else { std::cout << "# skipped fr (nothing offered)\n"; } }
     else if (w[0] == "cr") { commit_read(); }
     else if (w[0] == "em") { empty(static_cast<int>(num(1)), static_cast<int>(num(2))); }
+    else if (w[0] == "rp") { read_pass(num(1) != 0); }
     else { std::cout << "BAD-REPLAY-OP " << w[0] << "\n"; }
   }
 };
